@@ -214,6 +214,7 @@ func c15remove(c *Ctx) {
 		return s.Kind == px.KCall && shortName(s.Call) == hashPkg+".repr" && isParam(s.Call.Args[0], nodeP)
 	}
 	rr := calleeIs(hashPkg + ".(*ConsistentHash).removeRingNode")
+	haveHelper := c.P.Func(hashPkg, "(*ConsistentHash).removeRingNode") != nil
 	iters := 0
 	held := c.forall(rule, hashPkg+".(*ConsistentHash).Remove", "unknown node ⇒ no effect; otherwise for i < h.replicas: the same hash as in AddWithReplicas, at most the one matching key entry is removed (iff the search hit it) and the node is always removed from ring[hash]; finally the node is forgotten", f, ps, func(p *px.Path) (bool, string) {
 		cn := p.First(calleeIs(hashPkg + ".(*ConsistentHash).containsNode"))
@@ -256,6 +257,9 @@ func c15remove(c *Ctx) {
 			rrs, keyDel := 0, 0
 			hit := 0 // +1: both facts true
 			var facts []string
+			// the removal of the node from ring[hash]: the helper call, or — when the helper was inlined —
+			// the region from the lookup of ring[this hash] to the rewrite/deletion of that bucket
+			inRing, ringWrites := false, 0
 			for i := h.Seq + 1; i < end; i++ {
 				e := &p.Events[i]
 				switch {
@@ -264,6 +268,18 @@ func c15remove(c *Ctx) {
 						return false, "removeRingNode is not given (this hash, repr(node))"
 					}
 					rrs++
+				case !haveHelper && e.Kind == px.EvLookup && px.IsFieldLoad(e.Addr, "ring", nil) && e.Key.Strip(false) == h.Res:
+					rrs++
+					if p.Abs(findExtract(p, e.Res, 1)).K != px.False {
+						inRing = true
+					} else if i+1 < end && p.Events[i+1].Kind == px.EvBranch {
+						i++ // the found-test of a missing bucket
+					}
+				case inRing && ((e.Kind == px.EvMapUpdate && px.IsFieldLoad(e.Addr, "ring", nil)) || (e.Kind == px.EvCall && e.Call.Builtin == "delete" && px.IsFieldLoad(e.Call.Args[0], "ring", nil))):
+					ringWrites++
+					inRing = false
+				case inRing:
+					// filter loop of the inlined helper
 				case e.Kind == px.EvStore && px.FieldAddrIs(e.Addr, "keys", nil):
 					keyDel++
 				case e.Kind == px.EvBranch && !e.Forced:
@@ -278,6 +294,9 @@ func c15remove(c *Ctx) {
 				case e.Kind == px.EvCall && shortName(e.Call) == hashPkg+".(*ConsistentHash).removeNode":
 					i = end
 				}
+			}
+			if inRing || ringWrites > 1 {
+				return false, "a found bucket ring[hash] is neither rewritten nor deleted exactly once"
 			}
 			if rrs != 1 {
 				return false, fmt.Sprintf("replica iteration removes the node from ring[hash] ×%d (must be unconditional, once)", rrs)
@@ -300,7 +319,13 @@ func c15remove(c *Ctx) {
 	if held && iters < 2 {
 		c.R.Undecided(rule, hashPkg+".Remove#iterations", "the replica loop is recognised", fmt.Sprintf("%d iterations", iters))
 	}
-	if g := c.fn(rule, hashPkg, "(*ConsistentHash).removeRingNode"); g != nil {
+	if !haveHelper {
+		// helper inlined into Remove: its filter loop is part of Remove's paths (checked above); no loop of Remove may be left early
+		if held {
+			ee := earlyExitLoops(f)
+			c.R.Check(len(ee) == 0, rule, hashPkg+".(*ConsistentHash).Remove#all", "the replica loop and the bucket filter loop visit every entry", posOf(c, f), fmt.Sprint(ee), nil, 1)
+		}
+	} else if g := c.fn(rule, hashPkg, "(*ConsistentHash).removeRingNode"); g != nil {
 		ee := earlyExitLoops(g)
 		gps := c.paths(rule, g, px.Config{MaxVisits: 2})
 		ok := c.forall(rule, hashPkg+".(*ConsistentHash).removeRingNode", "every entry of ring[hash] whose repr equals the node's is filtered out (all of them); an emptied bucket is deleted", g, gps, func(p *px.Path) (bool, string) {
